@@ -12,8 +12,12 @@ import traceback
 def main():
     modname, func, args_src = sys.argv[1], sys.argv[2], sys.argv[3]
     trigger = None
-    if "\x00TRIGGER\x00" in args_src:
-        args_src, trigger = args_src.split("\x00TRIGGER\x00", 1)
+    if "\x1eTRIGGER\x1e" in args_src:
+        args_src, trigger = args_src.split("\x1eTRIGGER\x1e", 1)
+        args_src = args_src.split("\x1ePATCH\x1e", 1)[0]
+    patch = None
+    if "\x1ePATCH\x1e" in args_src:
+        args_src, patch = args_src.split("\x1ePATCH\x1e", 1)
     logging.disable(logging.CRITICAL)
     mod = importlib.import_module(modname)
     f = getattr(mod, func)
@@ -29,7 +33,12 @@ def main():
             print(json.dumps(dict(status="error", detail="trigger: %r" % (e,))))
         return
     try:
-        result = eval("__f(%s)" % args_src, dict(ns, __f=f))
+        if patch:
+            import crosshair, time, random  # noqa: the names CrossHair uses in its report
+            with crosshair.patch_to_return(eval(patch, dict(time=time, random=random))):
+                result = eval("__f(%s)" % args_src, dict(ns, __f=f))
+        else:
+            result = eval("__f(%s)" % args_src, dict(ns, __f=f))
     except Exception as e:
         print(json.dumps(dict(status="violated", result="raises %s: %s" % (type(e).__name__, str(e)[:300]),
                               traceback=traceback.format_exc()[-1500:])))
